@@ -245,10 +245,17 @@ func c09Isolation(r *verdict.Run, runs int, race bool) {
 		var stop atomic.Bool
 		var wg sync.WaitGroup
 		var txns, reads, torn atomic.Int64
+		// writers end by themselves (150 transactions each, or a failed connection); the wait below follows them, not
+		// the transaction count, so that writers which lose their connections cannot make it wait for ever
+		var wwg sync.WaitGroup
+		var lostMu sync.Mutex
+		var lost []string // how writers' connections failed
 		writer := func(id int) {
 			defer wg.Done()
+			defer wwg.Done()
 			cn, err := e.dial()
 			if err != nil {
+				noteInfra("isolation: a writer could not connect")
 				return
 			}
 			defer cn.Close()
@@ -264,6 +271,15 @@ func c09Isolation(r *verdict.Run, runs int, race bool) {
 				}
 				vs, err := cn.Pipeline(cmds)
 				if err != nil {
+					if !stop.Load() {
+						kind := "timeout"
+						if wire.IsClosedErr(err) {
+							kind = "closed"
+						}
+						lostMu.Lock()
+						lost = append(lost, fmt.Sprintf("%s|writer %d, transaction %d (%s): %d of %d replies, then %v", kind, id, i, cmdString(cmds[1]), len(vs), len(cmds), err))
+						lostMu.Unlock()
+					}
 					return
 				}
 				last := vs[len(vs)-1]
@@ -316,8 +332,11 @@ func c09Isolation(r *verdict.Run, runs int, race bool) {
 		}
 		for i := 0; i < 4; i++ {
 			wg.Add(1)
+			wwg.Add(1)
 			go writer(i)
 		}
+		wdone := make(chan struct{})
+		go func() { wwg.Wait(); close(wdone) }()
 		rdone := make(chan struct{})
 		var rwg sync.WaitGroup
 		for i := 0; i < 4; i++ {
@@ -328,16 +347,26 @@ func c09Isolation(r *verdict.Run, runs int, race bool) {
 		go func() { rwg.Wait(); close(rdone) }()
 		// writers finish after 150 transactions each; then stop the readers
 		time.Sleep(50 * time.Millisecond)
-		for txns.Load() < 4*150 && c.Alive() {
-			time.Sleep(10 * time.Millisecond)
-			if time.Since(time.Now()) > 0 {
-			}
-			if reads.Load() > 400000 {
-				break
+	waitWriters:
+		for c.Alive() && reads.Load() <= 400000 {
+			select {
+			case <-wdone:
+				break waitWriters
+			case <-time.After(10 * time.Millisecond):
 			}
 		}
 		stop.Store(true)
 		wg.Wait()
+		// a writer whose connection the emulator closed in the middle of MULTI ... EXEC while the process lives was not
+		// answered; a reply that did not come within the connection's watchdog decides nothing by itself
+		for _, l := range lost {
+			kind, what, _ := strings.Cut(l, "|")
+			if kind == "closed" && c.Alive() {
+				r.Report("isolation/transaction-connection-closed", "the emulator closed the connection of a client that only runs MULTI / two commands / EXEC: "+what, nil)
+			} else {
+				r.Inconclusive("isolation: a writer's connection failed (" + kind + ")")
+			}
+		}
 		fin, err := e.dial()
 		if err == nil {
 			v, _ := fin.Do("MGET", "x", "y")
